@@ -28,6 +28,10 @@ VALIDATED_ONLY = ["negative-conditions-remover", "usertype-fluents-remover", "tr
                   "undefined-initial-numeric-remover", "pipelines", "disjunctive-conditions-remover with a fake goal action"]
 
 
+# extra per-compiler correspondences wired into c06.py / c07.py when the module exists
+EXTRA_MODULES = ("layera_ncr", "layera_utfr", "layera_uinr", "layera_dcrgoal", "layera_tcr", "layera_pipe")
+
+
 class LANames(Names):
     """one table for the original and the compiled problem: fluents by name (BoundedTypesRemover replaces a bounded
     Fluent by an unbounded Fluent of the same name), parameters by (name, type) so that the parameter-type table of the
